@@ -29,12 +29,18 @@ def gen(rnd, n, kind):
         t = rnd.choice([np.uint8, np.int16, np.int32])
         hi = {np.uint8: 255, np.int16: 32767, np.int32: 2 ** 31 - 1}[t]
         return [t(rnd.randrange(hi // 2, hi)) for _ in range(n)]
+    if kind == "npbool":         # NumPy booleans (comparison results) and Python bools
+        return [rnd.choice([np.bool_(rnd.random() < .5), rnd.random() < .5]) for _ in range(n)]
+    if kind == "arr0d":          # 0-d arrays (np.asarray(x), elements of reductions), zeros included
+        return [np.asarray(rnd.choice([0.0, rnd.uniform(-5, 5)])) for _ in range(n)]
+    if kind == "zeros-mixed":    # exact zeros of several types between non-zero values
+        return [rnd.choice([0, 0.0, False, np.float64(0), -0.0]) if rnd.random() < 0.4 else rnd.uniform(-5, 5) for _ in range(n)]
     if kind == "outlier":        # values of order one with rare huge (finite) outliers that later leave the window
         return [rnd.choice([1e17, -1e15, 1e13]) if rnd.random() < 0.08 else rnd.uniform(0.5, 2.0) for _ in range(n)]
     raise ValueError(kind)
 
 
-KINDS = ["ramp", "ints", "uniform", "offset", "np64", "npint", "const", "spike", "outlier", "npsmallint"]
+KINDS = ["ramp", "ints", "uniform", "offset", "np64", "npint", "const", "spike", "outlier", "npsmallint", "npbool", "arr0d", "zeros-mixed"]
 
 
 def main(run):
@@ -82,7 +88,17 @@ def main(run):
                 failed = False
                 sched = rnd.choice(["every", "every", "sparse", "bursts"])       # WHEN the statistics are read must not matter
                 for i, v in enumerate(vals):
-                    tr.update(v)
+                    if rep == 2 and i in (k - 1, 2 * k + 1):
+                        # checkpoint: the stream continues on a deep copy / pickle round trip; the original is fed other values
+                        import copy
+                        import pickle
+                        old_tr = tr
+                        tr = copy.deepcopy(tr) if i == k - 1 else pickle.loads(pickle.dumps(tr))
+                        old_tr.update(1e9)
+                    if (i + rep) % 3 == 1:
+                        tr.update(value_i=v)        # the documented parameter name, passed by keyword
+                    else:
+                        tr.update(v)
                     m = i + 1
                     if m != n and ((sched == "sparse" and rnd.random() > 0.15) or (sched == "bursts" and (m // (k + 1)) % 3 != 0)):
                         continue
